@@ -349,7 +349,8 @@ def gen_workload(rng):
     cbs = []
     for i in range(n):
         a = gen.gen_task_arr(rng, allow_prefix=False)
-        if a[0] == "never":
+        sa = gen.arr_str(a)
+        if ("never" in sa or "agg 0" in sa or "sli 0" in sa) and rng.random() < 0.97:
             a = ("spo", rng.randint(3, 30), 0)
         c = wchoice(rng, [(7, ("sc", rng.randint(1, 5))), (2, ("mf", [rng.randint(1, 5) for _ in range(rng.randint(1, 3))])), (1, ("cc", gen.gen_cost_vec(rng)))])
         kind = wchoice(rng, [(2, "T"), (1, "E"), (2, "U"), (4, f"P {rng.randint(0, 5)}")])
